@@ -727,7 +727,11 @@ func funcKey(pkg *types.Package, fd *ast.FuncDecl, suffix string) string {
 		}
 		return "(" + pkg.Path() + "." + types.ExprString(t) + ")." + fd.Name.Name + suffix
 	}
-	return pkg.Path() + "." + fd.Name.Name + suffix
+	name := fd.Name.Name
+	if name == "init" {
+		name = "init#1" // the (first) source-level init function of the package
+	}
+	return pkg.Path() + "." + name + suffix
 }
 
 // splitTop splits on sep at nesting depth 0.
